@@ -91,23 +91,19 @@ Configs ==
 Analytic(c) == c.topo = "TRL" /\ c.me = 0
 
 (* The data are exact and every guess lies within 0.2 of the truth (the    *)
-(* stated radius of the basin): with the default limit (30) or more and    *)
-(* tolerances no tighter than the default (1e-6) the solve must succeed.   *)
-(* Under smaller limits it may fail to converge; under tighter tolerances  *)
-(* the iteration may stall at the rounding floor of noise-free data (no    *)
-(* strictly better point exists any more) and end with a convergence       *)
-(* error, which the property allows ("failing with a convergence error     *)
-(* rather than hanging").  pt, et: the tolerances of the solve in question *)
-(* (the tolerance ladder re-solves the same data under other tolerances).  *)
+(* stated radius of the basin): with the default limit (30) or more the    *)
+(* solve must succeed under every tolerance of the range; under smaller    *)
+(* limits it may fail to converge.  pt, et: the tolerances of the solve in *)
+(* question (the tolerance ladder re-solves the same data under other      *)
+(* tolerances); they do not restrict the demand.                           *)
 (* With measurement-error modelling the weights (V matrices) are recomputed *)
 (* from each iteration's error terms, so the cost the loop compares is not  *)
-(* one fixed function and the loop may find no better point: failing to    *)
-(* converge is then documented behaviour; success is not demanded.         *)
-(* Nothing is promised about badly scaled readings (WEAK) except a clean   *)
-(* return.                                                                 *)
+(* one fixed function, and the p-value test judges the residual a loose    *)
+(* tolerance leaves against the declared noise: failing is then documented *)
+(* behaviour and success is not demanded.  Nothing is promised about badly *)
+(* scaled readings (WEAK) except a clean return.                           *)
 MustSucceedAt(c, pt, et) ==
-    Analytic(c) \/ (c.lim >= 30 /\ pt <= 6 /\ et <= 6 /\ c.me = 0 /\
-                    c.topo \notin {"FEW", "WEAK", "PRIOR"})
+    Analytic(c) \/ (c.lim >= 30 /\ c.me = 0 /\ c.topo \notin {"FEW", "WEAK"})
 
 (* vnacal_new(3) ERRORS, EDOM: "Too few measured standards were given"     *)
 UnderDetermined(c) == c.topo = "FEW"
